@@ -59,8 +59,11 @@ class LifeWorker(IdWorker):
 class SpareFactory(FunctorWorkerFactory):
     """Factory handing out pre-built workers (initial ones first, then spares): the VM needs a finite table of objects."""
 
-    def __init__(self, ctx, wcls, quota, total):
-        self.all = [wcls(ctx, quota) for _ in range(total)]
+    def __init__(self, ctx, wcls, quota, total, initial=None, spare_quota=None):
+        # the first `initial` workers get `quota`; spares may get another quota (math.inf: they never retire), which keeps the
+        # number of replacements - and of modelled processes - at one
+        self.all = [wcls(ctx, quota) if (spare_quota is None or initial is None or k < initial) else wcls(ctx, spare_quota)
+                    for k in range(total)]
         for k, wk in enumerate(self.all):
             wk._vf_name = "fworker%d" % k
         self.next = 0
@@ -302,7 +305,8 @@ def make(cfg, ctx, mode, ctrl=None, restore=None):
             opp.threading = rp.FakeThreading(ctx)
             restore.append(lambda: setattr(opp, "threading", saved))
             rp.patch_thread_class(ctrl, opp.CMThread, restore)
-        fac = SpareFactory(ctx, wcls, quota, workers + spares)
+        fac = SpareFactory(ctx, wcls, quota, workers + spares, initial=workers,
+                           spare_quota=(math.inf if cfg.get("spares_unlimited") else None))
         pool = FactoryFunctorPool(workers, fac, context=ctx, work_queue_maxsize=cfg.get("wq", 1.0), results_queue_maxsize=cfg.get("rq", None))
         mt = cfg.get("max_tokens", 0)
         if mode == "model":
